@@ -187,6 +187,10 @@ let exactness (oit : oiter) (it : F64.t iter_out) : bool option =
       else if f64_ords_ok o it.io_rows then Some true else None
   | _ -> Some false
 
+(* the i64 overflow sites of the model (debug builds panic there, release builds wrap) *)
+let ovf_tag (n : nat) : string =
+  if List.mem (int_of_nat n) [13; 14; 21; 23; 24; 33; 34] then " i64-overflow" else ""
+
 let bits_eq a b =
   Z.eqb (f64_to_bits a) (f64_to_bits b) || (Float.is_nan (float_of_f64 a) && Float.is_nan (float_of_f64 b))
 
@@ -259,6 +263,21 @@ let () =
                 let itag = (if wild_mass && wild_fin then " wildcard-mass-finite-cell"
                             else if wild_mass then " wildcard-mass" else "")
                            ^ (if wild_pos then " positive-wildcard-cell" else "") in
+                (* huge-cell: at granularity g some symbol cell has |x| / g >= 2^52: the integer rescaling
+                   `(x / g).floor() as i64` and `score / g + offsets` leave the range where binary64 holds every
+                   integer (and, beyond 2^63, the i64 range: overflow panics in debug builds, wraps in release
+                   builds) -- known finding "huge-cell"; the predicate depends on the input and the step only *)
+                let maxabs = List.fold_left (fun a row ->
+                    List.fold_left (fun a (j, c) ->
+                        let x = Float.abs (float_of_f64 (f64_of_f32 c)) in
+                        if j < k - 1 && Float.is_finite x && x > a then x else a) a (List.mapi (fun j c -> (j, c)) row))
+                    0.0 mat32 in
+                (* huge-score (C12 only): the same for the query, |score| / g >= 2^52 *)
+                let qabs = if prop = "c12" then Float.abs (float_of_f64 q) else 0.0 in
+                let htag (g : float) =
+                  (if maxabs /. g >= 4503599627370496.0 then " huge-cell" else "")
+                  ^ (if Float.is_finite qabs && qabs /. g >= 4503599627370496.0 then " huge-score" else "") in
+                let gran_of_step i = 0.1 /. (10.0 ** float_of_int i) in
                 let oits = List.map parse_iter (split ';' (List.assoc "it" ofields)) in
                 let fin = List.assoc "fin" ofields in
                 let first_state = List.fold_left (fun a it -> match a, it with
@@ -286,14 +305,15 @@ let () =
                       match oit with
                       | OPanic ->
                           pf (Printf.sprintf "c12 step=%d panic%s%s" i
-                                (match mit with Some (Panic n) -> Printf.sprintf " model-panic-%d" (int_of_nat n) | _ -> "") itag)
+                                (match mit with Some (Panic n) -> Printf.sprintf " model-panic-%d%s" (int_of_nat n) (ovf_tag n) | _ -> "")
+                                (itag ^ htag (gran_of_step i)))
                       | OIt o ->
                           (match f64_to_dy o.g, f64_to_dy o.lo, f64_to_dy o.hi, qdy with
                            | Some g, Some lo, Some hi, Some s ->
                                let c = int64_of_z (c12_check tol mz e s g lo hi) in
                                if c <> 0L then
                                  pf (Printf.sprintf "c12 step=%d clause=%Ld g=%g s=%.17g range=[%.17g,%.17g]%s" i c
-                                       (float_of_f64 o.g) (float_of_f64 q) (float_of_f64 o.lo) (float_of_f64 o.hi) itag)
+                                       (float_of_f64 o.g) (float_of_f64 q) (float_of_f64 o.lo) (float_of_f64 o.hi) (itag ^ htag (float_of_f64 o.g)))
                            | _ -> pf (Printf.sprintf "c12 step=%d non-finite-range" i));
                           if o.conv then last_conv := Some o.g;
                           (match mit with
@@ -331,7 +351,16 @@ let () =
                        (match !last_conv, f64_to_dy f, qdy with
                         | Some g, Some fd, Some s ->
                             let c = int64_of_z (c12_check tol mz e s (dy_exn "g" (f64_to_dy g)) fd fd) in
-                            if c <> 0L then pf (Printf.sprintf "c12 final-pvalue clause=%Ld p=%.17g g=%g%s" c (float_of_f64 f) (float_of_f64 g) itag);
+                            if c <> 0L then pf (Printf.sprintf "c12 final-pvalue clause=%Ld p=%.17g g=%g%s" c (float_of_f64 f) (float_of_f64 g) (itag ^ htag (float_of_f64 g)));
+                            (* pvalue() of the model on its own run (TfmFinal.final_of_run: last iteration, converged) *)
+                            (match f64_final_of_run (nat_of_int steps) model with
+                             | Ok it ->
+                                 let all_exact = List.for_all (function
+                                     | OIt { st = Some { o_ord = Some _; _ }; _ } -> true | _ -> false) oits in
+                                 if not (close (float_of_f64 it.io_start) (float_of_f64 f))
+                                    || (all_exact && not (bits_eq it.io_start f)) then
+                                   df (Printf.sprintf "final-pvalue impl=%h model=%h" (float_of_f64 f) (float_of_f64 it.io_start))
+                             | _ -> df "final-pvalue model-did-not-converge");
                             (* pvalue() = start of the range of the converged iteration *)
                             List.iter (function
                                 | OIt o when o.conv ->
@@ -361,8 +390,13 @@ let () =
                           pf (Printf.sprintf "c13 step=%d panic%s%s" i
                                 (match mit with
                                  | Some (Panic n) when int_of_nat n = 31 -> " mass-above-window-exceeds-p model-panic-31"
-                                 | Some (Panic n) -> Printf.sprintf " model-panic-%d" (int_of_nat n)
-                                 | _ -> "") itag)
+                                 | Some (Panic n) -> Printf.sprintf " model-panic-%d%s" (int_of_nat n) (ovf_tag n)
+                                 | None when i = 0 ->
+                                     (* approximate_score() itself panicked: recompute(0.1) / the initial window *)
+                                     (match w0m with
+                                      | Panic n -> Printf.sprintf " model-panic-%d%s" (int_of_nat n) (ovf_tag n)
+                                      | _ -> "")
+                                 | _ -> "") (itag ^ htag (gran_of_step i)))
                       | OIt o ->
                           (* flags from the table the implementation reports, else from the replay *)
                           let flags = match o.st, mit with
@@ -387,7 +421,7 @@ let () =
                                let c = int64_of_z (c13_check tol mz e p g t) in
                                if c <> 0L then
                                  pf (Printf.sprintf "c13 step=%d clause=%Ld g=%g p=%.17g t=%.17g%s%s" i c
-                                       (float_of_f64 o.g) pfl (float_of_f64 o.score) tag itag)
+                                       (float_of_f64 o.g) pfl (float_of_f64 o.score) tag (itag ^ htag (float_of_f64 o.g)))
                            | _ -> pf (Printf.sprintf "c13 step=%d non-finite-score" i));
                           if o.conv then last_conv := Some (o.g, o.score);
                           if not !knife then
@@ -436,9 +470,25 @@ let () =
                    | bits ->
                        let f = f64_of_string bits in
                        (match !last_conv with
-                        | Some (_, sc) ->
+                        | Some (g, sc) ->
+                            (* score() = score of the converged iteration: it must obey the property at that
+                               granularity itself (checked on the returned value, not on the iteration) *)
+                            (match f64_to_dy g, f64_to_dy f, qdy with
+                             | Some gd, Some t, Some p ->
+                                 let c = int64_of_z (c13_check tol mz e p gd t) in
+                                 if c <> 0L then
+                                   pf (Printf.sprintf "c13 final-score clause=%Ld g=%g p=%.17g t=%.17g%s" c
+                                         (float_of_f64 g) pfl (float_of_f64 f) (itag ^ htag (float_of_f64 g)))
+                             | _ -> pf "c13 final-score non-finite");
                             if not (Z.eqb (f64_to_bits sc) (f64_to_bits f)) && not !knife then
-                              df "final-score-differs-from-converged-iteration"
+                              df "final-score-differs-from-converged-iteration";
+                            (* score() of the model on its own run (TfmFinal.final_of_run) *)
+                            if not !knife then
+                              (match f64_final_of_run (nat_of_int steps) model with
+                               | Ok it ->
+                                   if not (bits_eq it.io_score f) then
+                                     df (Printf.sprintf "final-score impl=%h model=%h" (float_of_f64 f) (float_of_f64 it.io_score))
+                               | _ -> df "final-score model-did-not-converge")
                         | None -> ()))
                 end;
                 (* a property failure on a case where the implementation also deviates from the
